@@ -18,7 +18,7 @@ CONFIG = 'crates/anemo/src/config.rs'
 TYPES = P.TYPES
 TIMEOUT = 600
 # vacuity guard: cover points that must be reached: history: an add onto an existing entry; ticks: a dial, a re-dial after 1 failure, after 2
-COVER = {'active_peers_history': [0, 1], 'who_is_dialed': [0], 'background_dialing_ticks': [0, 1, 3, 4], 'dial_races_inbound_connect': [0, 3, 5], 'closed_connection_bookkeeping': [0, 1, 2]}
+COVER = {'active_peers_history': [0, 1], 'who_is_dialed': [0], 'background_dialing_ticks': [0, 1, 3, 4], 'dial_races_inbound_connect': [0, 3, 5], 'closed_connection_bookkeeping': [0, 1, 2], 'mutual_dial_through_manager': [0, 1]}
 
 PRELUDE = r'''// GENERATED on every run by /verif/vc from /repo's working tree -- do not edit
 #![allow(dead_code, unused, non_upper_case_globals, non_camel_case_types, static_mut_refs)]
@@ -231,7 +231,7 @@ pub fn main() {
     if args.len() == 4 && args[1] == "--replay" {
         // re-run ONE choice sequence with the panic message visible
         let choices: Vec<(u32, u32)> = args[3].split(',').filter(|s| !s.is_empty()).map(|s| (s.trim().parse().unwrap(), u32::MAX)).collect();
-        let f: fn(&mut Chooser) = match args[2].as_str() { "active_peers_history" => harness::active_peers_history, "mutual_dial_converges" => harness::mutual_dial_converges, "who_is_dialed" => harness::who_is_dialed, "dial_races_inbound_connect" => harness::dial_races_inbound_connect, "closed_connection_bookkeeping" => harness::closed_connection_bookkeeping, _ => harness::background_dialing_ticks };
+        let f: fn(&mut Chooser) = match args[2].as_str() { "active_peers_history" => harness::active_peers_history, "mutual_dial_converges" => harness::mutual_dial_converges, "who_is_dialed" => harness::who_is_dialed, "dial_races_inbound_connect" => harness::dial_races_inbound_connect, "closed_connection_bookkeeping" => harness::closed_connection_bookkeeping, "mutual_dial_through_manager" => harness::mutual_dial_through_manager, _ => harness::background_dialing_ticks };
         reset_statics();
         let mut ch = Chooser { path: choices, pos: 0 };
         f(&mut ch);
@@ -245,6 +245,7 @@ pub fn main() {
     run_all("background_dialing_ticks", harness::background_dialing_ticks);
     run_all("dial_races_inbound_connect", harness::dial_races_inbound_connect);
     run_all("closed_connection_bookkeeping", harness::closed_connection_bookkeeping);
+    run_all("mutual_dial_through_manager", harness::mutual_dial_through_manager);
 }
 pub mod harness {
     use super::*;
@@ -346,6 +347,28 @@ pub mod harness {
         assert!(ap.get(&remote).map(|c| c.sid) == Some(winner.sid) && !is_closed(winner.sid));
         let n = event_len();
         assert!(n == 1 || n == 3);
+    }
+    pub fn mutual_dial_through_manager(ch: &mut Chooser) { // @EOBL [C05] @BOUNDED a mutual dial whose two connections (one dialed by each side, both already past admission and the acknowledgement handshake) are registered through ConnectionManager::add_peer in either order, on a node with no connection limit or a limit of 1 or 2, the remote peer unknown or known with Allowed affinity, possibly one other peer already connected: exactly one connection to the remote survives, it is the one dialed by the greater PeerId, the other is closed and a request handler runs for the survivor
+        let remote_greater = ch.any_bool();
+        let (own, remote) = if remote_greater { (P1, P2) } else { (P2, P1) };
+        let lim = ch.below(3);
+        let config = Arc::new(Config { max_concurrent_outstanding_connecting_connections: Some(100), connection_backoff_ms: None, max_connection_backoff_ms: None,
+                                       max_concurrent_connections: if lim == 0 { None } else { Some(lim as usize) } });
+        let mut known = KnownPeers::new();
+        if ch.any_bool() { known.insert(PeerInfo { peer_id: remote, affinity: PeerAffinity::Allowed, address: vec![] }); }
+        let mut cm = ConnectionManager {
+            config, endpoint: Arc::new(Endpoint { id: own }), mailbox: mpsc::Receiver { _t: std::marker::PhantomData },
+            pending_connections: JoinSet::new(), connection_handlers: JoinSet::new(), pending_dials: HashMap::default(), dial_backoff_states: HashMap::default(),
+            active_peers: ActivePeers::new(8), known_peers: known, service: Svc,
+        };
+        if ch.any_bool() { cm.add_peer(conn(12, ME, ConnectionOrigin::Outbound)); cover(1); }      // somebody else is already connected
+        let co = conn(10, remote, ConnectionOrigin::Outbound);
+        let ci = conn(11, remote, ConnectionOrigin::Inbound);
+        if ch.any_bool() { cm.add_peer(co.clone()); cm.add_peer(ci.clone()); } else { cover(0); cm.add_peer(ci.clone()); cm.add_peer(co.clone()); }
+        let (winner, loser) = if remote_greater { (&ci, &co) } else { (&co, &ci) };
+        assert!(cm.active_peers.get(&remote).map(|c| c.sid) == Some(winner.sid), "after a mutual dial the node does not hold the connection dialed by the greater id");
+        assert!(is_closed(loser.sid) && !is_closed(winner.sid), "the losing connection of a mutual dial is not closed (or the winner is)");
+        assert!(cm.connection_handlers.tasks.iter().any(|t| matches!(t, Task::Handler(sid) if *sid == winner.sid)), "no request handler runs for the surviving connection");
     }
 
     // ---------------- C13: background dialing over a few ticks ----------------
